@@ -53,8 +53,9 @@ impl Pattern {
     }
 }
 
-pub const APP_NAMES: [&str; 10] = ["put_slice", "extend_from_slice", "put_bytes", "resize", "extend(iter)", "reserve+chunk_mut+advance_mut", "extend(iter with size_hint lower bound 0)", "extend(iter of &u8)", "put(&[u8] as Buf)", "put(chain of two slices)"];
-const NAPP: u8 = 10;
+pub const APP_NAMES: [&str; 12] = ["put_slice", "extend_from_slice", "put_bytes", "resize", "extend(iter)", "reserve+chunk_mut+advance_mut", "extend(iter with size_hint lower bound 0)", "extend(iter of &u8)", "put(&[u8] as Buf)", "put(chain of two slices)", "extend(one static Bytes)", "extend(one shared Bytes)"];
+const NAPP: u8 = 12;
+static STATIC_SRC: [u8; 1 << 16] = [0x6b; 1 << 16];
 pub const CONS_NAMES: [&str; 8] = ["split()", "split_to(f)", "advance(f)", "clear()", "split_off(f) keeping the tail", "Buf::copy_to_bytes(f)", "Buf::copy_to_bytes(remaining())", "(&mut buf).take(f).copy_to_bytes(f)"];
 pub const FATE_NAMES: [&str; 8] = ["drop", "freeze, drop", "keep k rounds", "freeze, clone, keep clone k rounds", "unsplit back, then advance", "Vec::from(part), drop", "Vec::from(part.freeze()), drop", "the emptied remainder takes the part back: buf.unsplit(part); buf.clear()"];
 
@@ -202,6 +203,19 @@ pub fn run_pattern(p: &Pattern, n: u64) -> RunRes {
             7 => call(|| buf.extend(data.iter())),
             8 => call(|| buf.put(data)),
             9 => call(|| buf.put((&data[..m / 2]).chain(&data[m / 2..]))),
+            10 => {
+                // Extend<Bytes> with a chunk the buffer cannot take over (static memory)
+                let chunk = Bytes::from_static(&STATIC_SRC[..m]);
+                call(|| buf.extend(std::iter::once(chunk)))
+            }
+            11 => {
+                // ... and with a chunk that is shared with a handle the caller keeps (made and released outside the measured call)
+                let keep = Bytes::copy_from_slice(data);
+                let chunk = keep.clone();
+                let r = call(|| buf.extend(std::iter::once(chunk)));
+                drop(keep);
+                r
+            }
             _ => call(|| {
                 let mut left = data;
                 while !left.is_empty() {
